@@ -31,6 +31,7 @@
 #include <cassert>
 #include <cstddef>
 #include <cstdint> // uint8_t
+#include <functional> // std::less
 #include <iterator> // std::next
 #include <string>
 #include <type_traits>
@@ -674,6 +675,10 @@ private:
     // info
     bool canHaveUsernamePasswordPort() const;
 
+    // is the input a view of this URL's own serialization (e.g. a getter result)?
+    template <class CharT>
+    bool is_own_data(const CharT* first, const CharT* last) const noexcept;
+
     // url record
     void move_record(url& other) UPA_NOEXCEPT_17;
     void reset_record() noexcept;
@@ -723,6 +728,8 @@ public:
             url_.clear();
     }
     virtual void reserve(std::size_t new_cap) { url_.norm_url_.reserve(new_cap); }
+    template <class CharT>
+    bool is_own_data(const CharT* first, const CharT* last) const noexcept { return url_.is_own_data(first, last); }
 
     // set data
     void set_scheme(const url& src) { url_.set_scheme(src); }
@@ -1400,6 +1407,17 @@ inline void url::swap(url& other) UPA_NOEXCEPT_17 {
 // Returns validation_errc::ok on success, or an error value on parsing failure.
 template <typename CharT>
 inline validation_errc url::do_parse(const CharT* first, const CharT* last, const url* base) {
+    // this URL is reset before the input and the base are read: if one of them
+    // is this URL itself (url.parse(url.href())), then parse a copy of it
+    if (base == this) {
+        const url base_copy(*this);
+        return do_parse(first, last, &base_copy);
+    }
+    if (is_own_data(first, last)) {
+        const std::basic_string<CharT> inp_copy(first, last);
+        return do_parse(inp_copy.data(), inp_copy.data() + inp_copy.length(), base);
+    }
+
     const validation_errc res = [&]() {
         detail::url_serializer urls(*this);
 
@@ -1451,6 +1469,16 @@ validation_errc url::for_can_parse(T&& str_url, const url* base) {
 
 // Setters
 
+// The setters edit the serialization in place, so an input that is a view of
+// it (url.hash(url.search())) has to be copied before use
+template <class CharT>
+inline bool url::is_own_data(const CharT* first, const CharT* last) const noexcept {
+    const void* const data = norm_url_.data();
+    const void* const data_end = norm_url_.data() + norm_url_.capacity();
+    return first != last &&
+        !std::less<const void*>()(first, data) && std::less<const void*>()(first, data_end);
+}
+
 template <class StrT, enable_if_str_arg_t<StrT>>
 inline bool url::href(StrT&& str) {
     url u; // parsedURL
@@ -1480,6 +1508,8 @@ inline bool url::username(StrT&& str) {
         detail::url_setter urls(*this);
 
         const auto inp = make_str_arg(std::forward<StrT>(str));
+        if (is_own_data(inp.begin(), inp.end()))
+            return username(std::basic_string<typename decltype(inp)::value_type>(inp.begin(), inp.end()));
 
         std::string& str_username = urls.start_part(url::USERNAME);
         // UTF-8 percent encode it using the userinfo encode set
@@ -1496,6 +1526,8 @@ inline bool url::password(StrT&& str) {
         detail::url_setter urls(*this);
 
         const auto inp = make_str_arg(std::forward<StrT>(str));
+        if (is_own_data(inp.begin(), inp.end()))
+            return password(std::basic_string<typename decltype(inp)::value_type>(inp.begin(), inp.end()));
 
         std::string& str_password = urls.start_part(url::PASSWORD);
         // UTF-8 percent encode it using the userinfo encode set
@@ -1619,6 +1651,13 @@ inline validation_errc url_parser::url_parse(url_serializer& urls, const CharT* 
     simple_buffer<CharT> buff_no_ws;
     detail::do_remove_whitespace(first, last, buff_no_ws);
     //TODO-WARN: validation error if removed
+
+    // a setter's input can be a view of the URL it modifies: use a copy
+    if (first != buff_no_ws.data() && urls.is_own_data(first, last)) {
+        buff_no_ws.append(first, last);
+        first = buff_no_ws.data();
+        last = buff_no_ws.data() + buff_no_ws.size();
+    }
 
     if (urls.need_save()) {
         // reserve size (TODO: But what if `base` is used?)
